@@ -53,46 +53,51 @@ class C12:
     assumptions = ["the instruction stream itself is judged by C02-C05; here only listing == stream",
                    "line numbers are not compared for files using SET_LINENO (pre-2.3): the listing deliberately moves "
                    "them to the following instruction"]
-    budgets = {"quick": {"shards": 14, "examples": 22, "seconds": 85},
+    budgets = {"quick": {"shards": 14, "examples": 48, "seconds": 85},
                "thorough": {"shards": 16, "examples": 700, "seconds": 1500}}
 
     pp = ProgProp()
 
-    def strategy(self, ctx):
+    def strata(self, ctx):
+        from vf.gen import tables as gt
         max_size = 20000 if ctx.tier == "quick" else 100000
-
-        @st.composite
-        def case(draw):
-            v = draw(st.sampled_from(ALL_VERSIONS))
-            k = draw(st.sampled_from(["prog", "prog", "stdlib", "asm", "table"]))
-            sub = draw(st.integers(0, 3)) == 0
-            if k == "table":
-                # a drawn line / location table on a run of NOPs: the line-number column against CPython's dis
-                from vf.gen import tables as gt
-                vtup = pd.vt(v)
-                if vtup >= (3, 11):
+        sub = st.sampled_from([True, False, False, False])
+        out = []
+        for v in ALL_VERSIONS:
+            out.append(["prog:" + v, st.tuples(st.integers(2, 4).flatmap(lambda n, v=v: gp.programs(v, size=n)), sub).map(
+                lambda p, v=v: {"k": "prog", "v": v, "src": p[0], "subprocess": p[1]}), 4])
+            out.append(["stdlib:" + v, st.tuples(st.sampled_from(pd.stdlib_files(ctx, v, max_size)), sub).map(
+                lambda p, v=v: {"k": "stdlib", "v": v, "path": p[0], "subprocess": p[1]}), 2])
+            out.append(["asm:" + v, ga.asm_cases(v, self.pp.tables(ctx, v), padding=False).map(
+                lambda items, v=v: {"k": "asm", "v": v, "items": items, "subprocess": False}), 2])
+            # a drawn line / location table on a run of NOPs: the line-number column against CPython's dis
+            vtup = pd.vt(v)
+            if vtup >= (3, 11):
+                @st.composite
+                def loc(draw, v=v):
                     first = draw(st.sampled_from([1, 1, 5, 1000]))
                     return {"k": "loctab", "v": v, "first": first, "entries": draw(gt.loctab_entries(first)), "exc": [], "subprocess": False}
-                c = draw(gt.lnotab_cases(vtup))
-                c.update({"k": "lnotab", "v": v, "subprocess": False})
-                return c
-            if k == "asm" and draw(st.integers(0, 2)) == 0:
-                # the SAME code bytes listed as two versions, one after the other in this process (3.9 -> 3.10 changes
-                # what a jump operand means): a listing must not depend on what was listed before
-                v1, v2 = draw(st.sampled_from([("3.9", "3.10"), ("3.10", "3.9"), ("3.6", "3.7"), ("3.7", "3.8"), ("3.8", "3.9")]))
-                return {"k": "asmpair", "v": v1, "v2": v2, "items": draw(ga.asm_cases(v1, self.pp.tables(ctx, v1))), "subprocess": False}
-            if k == "asm":
-                return {"k": "asm", "v": v, "items": draw(ga.asm_cases(v, self.pp.tables(ctx, v))), "subprocess": False}
-            if k == "prog":
-                return {"k": "prog", "v": v, "src": draw(gp.programs(v, size=draw(st.integers(2, 4)))), "subprocess": sub}
-            return {"k": "stdlib", "v": v, "path": draw(st.sampled_from(pd.stdlib_files(ctx, v, max_size))), "subprocess": sub}
-        return case()
+                out.append(["table:" + v, loc(), 2])
+            else:
+                out.append(["table:" + v, gt.lnotab_cases(vtup).map(lambda c, v=v: dict(c, k="lnotab", v=v, subprocess=False)), 2])
+        # the SAME code bytes listed as two versions, one after the other in this process (3.9 -> 3.10 changes what a
+        # jump operand means): a listing must not depend on what was listed before
+        for v1, v2 in [("3.9", "3.10"), ("3.10", "3.9"), ("3.6", "3.7"), ("3.7", "3.8"), ("3.8", "3.9")]:
+            out.append(["asmpair:%s-%s" % (v1, v2), ga.asm_cases(v1, self.pp.tables(ctx, v1), padding=False).map(
+                lambda items, v1=v1, v2=v2: {"k": "asmpair", "v": v1, "v2": v2, "items": items, "subprocess": False}), 1])
+        return out
+
+    def strategy(self, ctx):
+        return st.one_of([s_ for _, s_, _ in self.strata(ctx)])
 
     def fixed_cases(self, ctx):
         for p in pd.corpus_files():
             if "dropbox" in p:
                 continue
             yield {"k": "corpus", "path": p, "subprocess": False}
+        for v in ALL_VERSIONS:
+            for items in ga.jump_patterns(self.pp.tables(ctx, v)):
+                yield {"k": "asm", "v": v, "items": items, "subprocess": False}
 
     def judge(self, case, ctx):
         if case.get("k") == "asmpair":
